@@ -1217,8 +1217,30 @@ func overlapMenu() (names []string, calls []func(yield func()) string) {
 	addSign("sign-k1", "hello\n", "k1")
 	addSign("sign-k2k1", "another text\n", "k2", "k1")
 	addSign("sign-long", strings.Repeat("line of text\n", 300), "k1")
+	// calls of Sign that fail after an earlier signer has already produced its signature
+	addFailing := func(name, text string, existing []note.Signature, mk func(y func()) []note.Signer) {
+		names = append(names, name)
+		calls = append(calls, func(y func()) string {
+			n := &note.Note{Text: text, Sigs: existing}
+			m, err := note.Sign(n, mk(y)...)
+			return fmt.Sprintf("%q err=%v", m, err)
+		})
+	}
+	addFailing("sign-k1-then-failing-signer", "will fail\n", nil, func(y func()) []note.Signer {
+		return []note.Signer{yieldSigner{ks["k1"].signer, y}, errSigner{ks["k2"].signer}}
+	})
+	addFailing("sign-k2-then-invalid-name", "will fail too\n", nil, func(y func()) []note.Signer {
+		return []note.Signer{yieldSigner{ks["k2"].signer, y}, fakeSigner{"bad name", 7, []byte("x")}}
+	})
+	addFailing("sign-k1-over-malformed-existing", "fails late\n", []note.Signature{{Name: "x.example", Hash: 5, Base64: "!!not base64!!"}}, func(y func()) []note.Signer {
+		return []note.Signer{yieldSigner{ks["k1"].signer, y}}
+	})
 	return
 }
+
+type errSigner struct{ note.Signer }
+
+func (errSigner) Sign([]byte) ([]byte, error) { return nil, fmt.Errorf("injected signer error") }
 
 // overlapPart explores every interleaving (at verifier lookups, Verify and Sign callbacks) of every ordered
 // pair of calls and compares each result with the call run alone. only (replay) restricts to one pair.
